@@ -123,6 +123,12 @@ func evalRegex(node *jparse.RegexNode, data reflect.Value, env *environment) (re
 
 func evalVariable(node *jparse.VariableNode, data reflect.Value, env *environment) (reflect.Value, error) {
 	if node.Name == "" {
+		// A nil interface stands for "no context item" (a path
+		// evaluated without one puts it into the array that it
+		// maps its steps over).
+		if data.Kind() == reflect.Interface && data.IsNil() {
+			return undefined, nil
+		}
 		return data, nil
 	}
 	return env.lookup(node.Name), nil
